@@ -28,6 +28,24 @@ CHECKS = {
              "off or by a refused write are not compared; one known finding kept out by a guard.",
         tech=TECH % ("", "oracle = n-dimensional array reference model"),
     ),
+    "C04": dict(
+        profile="layout", cat="exploration", ref="DESIGN.md section 4 C04, section 8",
+        text="Seeded search in which one logical dataset is stored 2..4 times in one file, once per layout: contiguous; "
+             "chunked with a generated chunk shape (every shape for extents 1..7, non-dividing and larger than the "
+             "extent), cache size 1..8 resized on the way; chunked+RLE/skipping-Huffman/deflate; chunked+n-bit; "
+             "compressed; n-bit; external file with offset; unlimited with block sizes; layouts selected at creation "
+             "or in a later call/session; descriptor-block and linked-block size hooks. Every logical slab write goes "
+             "to all layouts, every slab/strided read, whole-chunk read (SDreadchunk) and whole-chunk write "
+             "(SDwritechunk = the slab of that chunk elsewhere) is compared with the array model for every layout, "
+             "before and after reopen. The same for one raster image stored plain, chunked, chunked+compressed and "
+             "compressed with GRwritechunk/GRreadchunk/GRreqimageil/GRsetchunkcache. 6 000 / 150 000 histories.",
+        note="Trusts the array model (equal to what the contiguous layout gives, which C03 checks on its own). "
+             "Compressed non-chunked datasets are written whole; n-bit layouts hold values the field represents; a "
+             "fixed-size external dataset is first written whole (never-written cells are the external file's bytes); "
+             "GR whole-chunk calls on square images only; two known findings (GR chunk calls with non-square chunks "
+             "and non-pixel interlace) kept out by a guard, stored replays.",
+        tech=TECH % ("", "oracle = array reference model compared with every layout of the same logical dataset"),
+    ),
     "C05": dict(
         profile="coder", cat="exploration", ref="DESIGN.md section 4 C05, section 8",
         text="Seeded search over coder histories: compressed elements (none, RLE, skipping Huffman skip 1..16, deflate "
@@ -175,7 +193,7 @@ NOT_APPLICABLE = {
 
 # claimed by the design but whose check is not built yet in this tree (moved to CHECKS as they land)
 PENDING = {
-    "C02": "format", "C03": "sdarray", "C04": "layout", "C07": "vdata", "C08": "vgroup",
+    "C02": "format", "C03": "sdarray", "C07": "vdata", "C08": "vgroup",
     "C09": "raster", "C10": "attrs", "C11": "annot", "C12": "ddmap", "C13": "handles", "C14": "readonly",
     "C16": "iofault", "C17": "crash", "C20": "limits",
 }
